@@ -498,6 +498,58 @@ class Main {
       "5\n12 15\n42\nF\nT\n9 19 9\n2 off",
       None,
     ),
+
+    demo(
+      "evaluation order, short-circuit operators, calls whose result is discarded",
+      r#"class Main {
+  function say(s: Str, v: bool): bool = { let _ = Process.println(s); v }
+  function num(s: Str, v: int): int = { let _ = Process.println(s); v }
+  function drain(n: int): int = if n == 0 { 5 } else { let _ = Main.drain(n - 1); 0 }
+  function count(n: int): int = if n == 0 { 0 } else { let r = Main.count(n - 1); r + 1 }
+  function last(n: int): int = if n == 0 { 7 } else { Main.last(n - 1) }
+  function show(b: bool): unit = Process.println(if b { "T" } else { "F" })
+  function main(): unit = {
+    let _ = Main.show({ let _ = Process.println("left operand evaluated"); false } && Main.say("not evaluated", true));
+    let _ = Main.show({ let _ = Process.println("left true"); true } && Main.say("right evaluated", false));
+    let _ = Main.show({ let _ = Process.println("left true again"); true } || Main.say("not evaluated either", false));
+    let _ = Main.show({ let _ = Process.println("left false"); false } || Main.say("right evaluated too", true));
+    let _ = Main.show(Main.say("a", false) && Main.say("b", true) || Main.say("c", true) && !Main.say("d", false));
+    let _ = Process.println(Str.fromInt(Main.num("x", 1) + Main.num("y", 2) * Main.num("z", 3)));
+    let _ = Process.println(Str.fromInt(Main.drain(3)) :: " " :: Str.fromInt(Main.drain(0)) :: " " :: Str.fromInt(Main.count(4)) :: " " :: Str.fromInt(Main.last(4)));
+    let _ = Main.num("discarded", 9);
+    let t = (Main.num("first", 1), Main.num("second", 2));
+    let _ = Process.println(Str.fromInt(t.e0 * 10 + t.e1));
+  }
+}"#,
+      "left operand evaluated\nF\nleft true\nright evaluated\nF\nleft true again\nT\nleft false\nright evaluated too\nT\na\nc\nd\nT\nx\ny\nz\n7\n0 5 4 7\ndiscarded\nfirst\nsecond\n12",
+      None,
+    ),
+
+    demo(
+      "generic classes: method references, bounded type parameters, interfaces",
+      r#"interface Show { method show(): Str }
+class Plain(val n: int) : Show { method show(): Str = "P" :: Str.fromInt(this.n) }
+class Box<T>(val v: T) {
+  method get(): T = this.v
+  method <R> map(f: (T) -> R): Box<R> = Box.init(f(this.v))
+}
+class Main {
+  function apply(f: () -> int): int = f() + 1
+  function <T: Show> showIt(t: T): Str = t.show()
+  function <T: Show> showBoth(a: T, b: T): Str = a.show() :: "/" :: b.show()
+  function main(): unit = {
+    let b = Box.init(3);
+    let _ = Process.println(Str.fromInt(Main.apply(b.get)));
+    let m = b.map<int>;
+    let _ = Process.println(Str.fromInt(m((x) -> x * 2).get()));
+    let s = Box.init("str").map((x) -> x :: "!");
+    let _ = Process.println(s.get());
+    let _ = Process.println(Main.showIt(Plain.init(1)) :: " " :: Main.showBoth(Plain.init(2), Plain.init(3)));
+  }
+}"#,
+      "4\n6\nstr!\nP1 P2/P3",
+      None,
+    ),
   ]
 }
 
